@@ -342,6 +342,15 @@ func c14Run(env *fw.Env, raw json.RawMessage) fw.Outcome {
 				if c0 == 0 && len(L0) > 0 {
 					wordCls += "|cursor-at-line-start-before-a-word"
 				}
+				// one narrow class of its own: with removable suffixes declared (NoSpace), the blank in
+				// front of the cursor is taken away by the insertion of a candidate for an empty word
+				if c.NoSp && ws == c0 && ws > 0 && L0[ws-1] == ' ' {
+					for _, v := range c.Values {
+						if w.Line == string(L0[:ws-1])+v+post {
+							cls, wordCls = "blank-before-an-empty-word-removed", "nospace-completions"
+						}
+					}
+				}
 				o.Viol("completion-framing|"+cls+"|"+wordCls, ctx+fmt.Sprintf(" after key %d (%s, %s): buffer %q; expected %q + <offered value> + %q", i-first, key, round, w.Line, pre, post))
 			}
 		case key == "accept-and" && prev.Local == "menu-select":
